@@ -20,7 +20,12 @@ import traceback
 
 import numpy as np
 
-EXIT_CODE = 77  # the configured exit code (deliberately not nessai's default 130)
+EXIT_CODE = 77  # the default configured exit code (deliberately not nessai's default 130); task["exit_code"] overrides
+FINISHED = 112  # phase 1 ended WITHOUT the handler ending the process (run completed / exit swallowed)
+
+
+def configured_exit(task):
+    return int(task.get("exit_code", EXIT_CODE))
 
 
 def make_model(dims=2):
@@ -63,7 +68,7 @@ def sampler_kwargs(task):
         return dict(importance_nested_sampler=True, nlive=task.get("nlive", 100), n_initial=task.get("nlive", 100),
                     min_samples=20, plot=False, checkpointing=True, checkpoint_on_iteration=True, checkpoint_interval=1,
                     seed=task.get("seed", 5), max_iteration=task.get("max_iteration", 5),
-                    min_iteration=task.get("min_iteration", 3), exit_code=EXIT_CODE,
+                    min_iteration=task.get("min_iteration", 3), exit_code=configured_exit(task),
                     flow_config=dict(n_blocks=2, n_neurons=4, n_layers=1),
                     training_config=dict(max_epochs=task.get("max_epochs", 10), patience=5))
     nlive = task.get("nlive", 30)
@@ -73,7 +78,8 @@ def sampler_kwargs(task):
               max_iteration=task.get("max_iteration", 600), analytic_priors=not task.get("rejection", False),
               maximum_uninformed=task.get("maximum_uninformed", 40), poolsize=task.get("poolsize", 20),
               flow_config=dict(n_blocks=2, n_neurons=4, max_epochs=task.get("max_epochs", 8), patience=4),
-              exit_code=EXIT_CODE, checkpointing=True)
+              exit_code=configured_exit(task), checkpointing=True)
+    kw.update(task.get("proposal_kwargs") or {})   # non-default FlowProposal options (truncate_log_q, ...)
     if task.get("uninformed_only"):
         # stay with the uninformed (prior) proposal for the whole run
         kw.update(maximum_uninformed=10 ** 9, uninformed_acceptance_threshold=0.0)
@@ -147,7 +153,7 @@ def phase1(task, outdir):
         # a pipeline: earlier analyses in the same process (their own output, their own exit code)
         for j in range(int(task["prior_samplers"])):
             kw = sampler_kwargs(task)
-            kw.update(exit_code=EXIT_CODE + 1 + j, max_iteration=8)
+            kw.update(exit_code=configured_exit(task) + 1 + j, max_iteration=8)
             prior = FlowSampler(make_model(task.get("dims", 2)), output=os.path.join(outdir, f"prior{j}"), resume=True,
                                 signal_handling=True, **kw)
             prior.run(plot=False, save=False)
@@ -261,7 +267,7 @@ def phase1(task, outdir):
         fs.run(plot=False, save=False)
     except SystemExit as e:
         sys.settrace(None)
-        os._exit(e.code if isinstance(e.code, int) else 1)
+        os._exit(e.code if isinstance(e.code, int) else (0 if e.code is None else 1))
     except BaseException:  # noqa
         sys.settrace(None)
         with open(os.path.join(outdir, "phase1_error.txt"), "w") as fh:
@@ -271,7 +277,7 @@ def phase1(task, outdir):
     if not info["reached"]:
         with open(os.path.join(outdir, "inject.json"), "w") as fh:
             json.dump({"reached": False, "why": "run finished before the line was executed"}, fh)
-    os._exit(0)
+    os._exit(FINISHED)
 
 
 def file_hashes(outdir):
